@@ -408,3 +408,98 @@ theorem c03_unkeyed_counterexample :
     ((Repl.runS Sys.default unkeyedWitness).storeOf 1).leo = 5 := by decide
 
 end WK.C03
+
+/-! ## backpressure only while another command is pending -/
+namespace WK.C03
+open WK WK.Repl
+
+theorem finishCommit_not_bp (cap : Nat) (ch : QChan) (r : Retained) : (finishCommit cap ch r).2 ≠ .err .backpressure := by
+  unfold finishCommit
+  repeat' split
+  all_goals simp
+
+theorem reconcile_not_bp (cap : Nat) (ch : QChan) (st : Store) (cmd : Cmd) (cs : List Nat) :
+    (reconcile cap ch st cmd cs).2 ≠ .err .backpressure := by
+  rcases reconcile_cases cap ch st cmd cs with h | ⟨p, _, _, _, _, h⟩ <;> rw [h] <;> simp
+
+theorem commitRetry_not_bp (s : Sys) (i : Nat) (ch : QChan) (r : Retained) (acks : List Ack) :
+    (commitRetry s i ch r acks).2 ≠ .err .backpressure := by
+  unfold commitRetry
+  generalize runRound s i ch.auth.q acks r.p = rr
+  obtain ⟨s', ok, out⟩ := rr
+  simp only
+  split
+  · simp
+  · split
+    · simp
+    · exact finishCommit_not_bp _ _ _
+
+theorem commitFresh_not_bp (s : Sys) (i : Nat) (nd : NodeSt) (ch : QChan) (cmd : Cmd) (cs : List Nat) (acks : List Ack) :
+    (commitFresh s i nd ch cmd cs acks).2 ≠ .err .backpressure := by
+  unfold commitFresh
+  cases sealBusiness ch cmd cs with
+  | none => simp
+  | some r =>
+    simp only
+    generalize runRound (s.setNode i { nd with chan := some { ch with pending := some r } }) i ch.auth.q acks r.p = rr
+    obtain ⟨s', ok, out⟩ := rr
+    simp only
+    split
+    · simp
+    · split
+      · split
+        · exact reconcile_not_bp _ _ _ _ _
+        · simp
+      · exact finishCommit_not_bp _ _ _
+
+/-- **c03_backpressure_only_pending** — the model theorem behind the judge clause
+    `viol:backpressure-without-pending`: `Commit` answers `backpressure` ONLY while the owner holds a
+    pending proposal of a DIFFERENT command; no other path (cache hit, pending retry, fresh round,
+    command-index reconciliation) can produce it. -/
+theorem c03_backpressure_only_pending (s : Sys) (i : Nat) (e : AuthId) (c : Nat) (cs : List Nat) (acks : List Ack)
+    (h : (commit s i e c cs acks).2 = .err .backpressure) :
+    ∃ nd ch r, s.node? i = some nd ∧ nd.chan = some ch ∧ ch.pending = some r ∧ r.p.m.cmd ≠ Cmd.biz c := by
+  unfold commit at h
+  cases hn : s.node? i with
+  | none => simp [hn] at h
+  | some nd =>
+    simp only [hn] at h
+    split at h
+    · cases h
+    · cases hc : nd.chan with
+      | none => simp [hc] at h
+      | some ch =>
+        simp only [hc] at h
+        split at h
+        · cases h
+        · split at h
+          · cases h
+          · split at h
+            · cases h
+            · unfold commitAdmitted at h
+              split at h
+              · split at h
+                · cases h
+                · split at h
+                  · cases h
+                  · exact absurd h (commitRetry_not_bp _ _ _ _ _)
+              · cases hp : ch.pending with
+                | none =>
+                  simp only [hp] at h
+                  exact absurd h (commitFresh_not_bp _ _ _ _ _ _ _)
+                | some r =>
+                  simp only [hp] at h
+                  split at h
+                  · split at h
+                    · cases h
+                    · exact absurd h (commitRetry_not_bp _ _ _ _ _)
+                  · rename_i hne
+                    exact ⟨nd, ch, r, rfl, hc, hp, hne⟩
+
+/-- non-vacuity: a second command while the first is pending -/
+example :
+    let s := (step (step Sys.default (.install 1 ⟨⟨1, 1, 1⟩, 2, false⟩ [.all, .all, .all] [.D, .D, .D])).1
+               (.commit 1 ⟨1, 1, 1⟩ 1 1 0 [.L, .X, .X])).1
+    (commit s 1 ⟨1, 1, 1⟩ 2 [0] [.D, .D, .D]).2 = .err .backpressure := by decide
+
+end WK.C03
